@@ -114,9 +114,17 @@ pub fn eval(nb_fixed: usize, nb_perm: usize, n: usize, distinct: bool, seed: u64
         ));
         return out;
     }
-    // binding: a single-position edit of the exposed accumulator must be rejected (thorough: every
-    // position; quick: first, middle, last - one verification of this circuit takes seconds)
-    let positions: Vec<usize> = if all_positions { (0..pi.len()).collect() } else { vec![0, pi.len() / 2, pi.len() - 1] };
+    // binding: a single-position edit of the exposed accumulator must be rejected (quick: first,
+    // middle, last - one verification of this circuit takes seconds)
+    // (thorough: ten positions spread over the vector, the first and the last among them)
+    let positions: Vec<usize> = if all_positions {
+        let n = pi.len();
+        let mut v: Vec<usize> = (0..10).map(|i| i * (n - 1) / 9).collect();
+        v.dedup();
+        v
+    } else {
+        vec![0, pi.len() / 2, pi.len() - 1]
+    };
     for pos in positions {
         let old = pi[pos];
         prover.instance_mut()[1][pos] = InstanceValue::Assigned(old + F::ONE);
